@@ -269,13 +269,21 @@ func (cluH) Generate(property string, seed uint64, tier string) *Case {
 	default:
 		conc := false
 		switch property {
-		case "C10", "C13", "C20", "C34":
+		case "C10", "C13", "C20":
 			conc = g.IntN(2) == 0
+		case "C34":
+			conc = true
 		}
 		if conc {
 			cfg.Mode = "conc"
 			cfg.Tasks = 2 + g.IntN(3)
 			plan.Policy = []string{"random", "sticky", "pct"}[g.IntN(3)]
+		}
+		if property == "C34" {
+			// race build: parked calls are released in batches whose members the race
+			// detector sees as concurrent
+			plan.Policy = "batch"
+			nops += 4
 		}
 		for i := 0; i < nops; i++ {
 			op := genCluOp(g, &cfg, property, i)
@@ -297,12 +305,29 @@ func (cluH) Generate(property string, seed uint64, tier string) *Case {
 			if property == "C21" && g.IntN(6) == 0 {
 				op = cluOp{Kind: "advance", Secs: 20 + g.IntN(60)}
 			}
+			if property == "C34" {
+				switch g.IntN(10) {
+				case 0:
+					op = cluOp{Kind: "rpc_pods"}
+				case 1:
+					op = cluOp{Kind: "rpc_node", Node: g.IntN(len(cfg.Nodes))}
+				case 2:
+					op = cluOp{Kind: "rpc_status", Slot: g.IntN(64)}
+				case 3:
+					op = cluOp{Kind: "rpc_send", Slots: []int{g.IntN(64), g.IntN(64)}}
+				case 4:
+					// removals spanning several workloads (and nodes)
+					op = cluOp{Kind: "remove", Slots: []int{g.IntN(64), g.IntN(64), g.IntN(64)}, Force: true}
+				case 5:
+					op = genCreate(g, &cfg, property)
+				}
+			}
 			op.Task = g.IntN(cfg.Tasks)
 			ops = append(ops, mustJSON(op))
 		}
 		// exactly one fault somewhere (sampled; the thorough tier sweeps every position)
 		switch property {
-		case "C20", "C21", "C01", "C02", "C03":
+		case "C20", "C21", "C01", "C02", "C03", "C34":
 		default:
 			if g.IntN(4) != 0 {
 				plan.ErrAt = []int{g.IntN(60 * nops)}
@@ -374,6 +399,7 @@ func (cluH) Execute(c *Case, res *Result) {
 		ctx := context.Background()
 		sim.SetFaultsEnabled(false)
 		w.core = w.boot("")
+		w.vibranium() // created before the client tasks start (they share it, like a server does)
 		for _, p := range cfg.Pods {
 			if _, err := w.core.cal.AddPod(ctx, p, ""); err != nil {
 				res.Harness = "setup AddPod: " + err.Error()
